@@ -271,6 +271,47 @@ func c13shape(w *c13world, nd parsley.Node) string {
 	return "?"
 }
 
+// c13tree generates the tree of a case; the same caseSeed gives an identical twin (same shape, ids and interpreters)
+func c13tree(caseSeed int64, a *run.Acc) (*c13world, *c13m) {
+	w := &c13world{r: rand.New(rand.NewSource(caseSeed)), failAt: -1, byNode: map[parsley.Node]*c13m{}}
+	w.allowNil = caseSeed%3 == 0
+	depth := 1 + w.r.Intn(6)
+	switch caseSeed % 41 {
+	case 5:
+		w.deep, depth = true, 40+w.r.Intn(300)
+		if a != nil {
+			a.Count("deep trees (40-340 levels)", 1)
+		}
+	case 6:
+		w.wide = true
+		if a != nil {
+			a.Count("wide trees (a node with 300-1800 children)", 1)
+		}
+	}
+	root := w.gen(depth)
+	w.deep = false
+	return w, root
+}
+
+// c13shapeSchemas renders a tree with the schema recorded on every node
+func c13shapeSchemas(w *c13world, nd parsley.Node) string {
+	if nd == nil {
+		return "<nil>"
+	}
+	s := fmt.Sprintf("%s:%v", nd.Token(), nd.Schema())
+	if m := w.byNode[nd]; m != nil {
+		s = fmt.Sprintf("#%d:%v", m.id, nd.Schema())
+	}
+	if nt, ok := nd.(*ast.NonTerminalNode); ok {
+		var ks []string
+		for _, k := range nt.Children() {
+			ks = append(ks, c13shapeSchemas(w, k))
+		}
+		s += "(" + strings.Join(ks, " ") + ")"
+	}
+	return s
+}
+
 func c13exec(j run.Job, a *run.Acc) {
 	r := rand.New(rand.NewSource(j.Seed))
 	for it := 0; it < j.N; it++ {
@@ -278,19 +319,7 @@ func c13exec(j run.Job, a *run.Acc) {
 		if !a.Begin() {
 			continue
 		}
-		w := &c13world{r: rand.New(rand.NewSource(caseSeed)), failAt: -1, byNode: map[parsley.Node]*c13m{}}
-		w.allowNil = caseSeed%3 == 0
-		depth := 1 + w.r.Intn(6)
-		switch caseSeed % 41 {
-		case 5:
-			w.deep, depth = true, 40+w.r.Intn(300)
-			a.Count("deep trees (40-340 levels)", 1)
-		case 6:
-			w.wide = true
-			a.Count("wide trees (a node with 300-1800 children)", 1)
-		}
-		root := w.gen(depth)
-		w.deep = false
+		w, root := c13tree(caseSeed, a)
 		var order []*c13m // post-order of the tree that Walk is expected to follow
 		listRoot := false
 		var rootNode parsley.Node = root.node
@@ -608,6 +637,41 @@ func c13exec(j run.Job, a *run.Acc) {
 				a.Violate("transform", "transform", desc(map[string]any{"got": c13shape(w, out), "expected": wantShape, "log": w.log, "expected_log": wantT, "error": fmt.Sprint(terr)}))
 			}
 		}
+		// ---- parsley.Parse with transformation AND static checking enabled = Transform, then StaticCheck of the tree that
+		// Transform returned (also when the root's own transformer replaced the root). Two identical twins of the tree:
+		// one goes through Parse with both switches, the other through the two public passes by hand; logs, error and the
+		// returned trees with their recorded schemas must agree.
+		if caseSeed%4 == 1 && !listRoot {
+			wA, rootA := c13tree(caseSeed, nil)
+			wB, rootB := c13tree(caseSeed, nil)
+			fail := -1
+			if w.r.Intn(3) == 0 {
+				fail = 1 + w.r.Intn(w.nextID)
+			}
+			wA.failAt, wB.failAt = fail, fail
+			f := text.NewFile("f", []byte("x"))
+			ctx := parsley.NewContext(parsley.NewFileSet(f), text.NewReader(f))
+			ctx.EnableTransformation()
+			ctx.EnableStaticCheck()
+			ctx.SetUserContext("UB")
+			outA, errA := parsley.Parse(ctx, parser.Func(func(*parsley.Context, data.IntMap, parsley.Pos) (parsley.Node, data.IntSet, parsley.Error) {
+				return rootA.node, data.EmptyIntSet, nil
+			}))
+			outB, e1 := parsley.Transform("UB", rootB.node)
+			var errB error
+			if e1 != nil {
+				errB, outB = ctx.FileSet().ErrorWithPosition(e1), nil // Parse renders the position of the error
+			} else if e2 := parsley.StaticCheck("UB", outB); e2 != nil {
+				errB, outB = ctx.FileSet().ErrorWithPosition(e2), nil
+			}
+			a.Count("trees sent through Parse with transformation and static check both enabled", 1)
+			sA, sB := c13shapeSchemas(wA, outA), c13shapeSchemas(wB, outB)
+			if strings.Join(wA.log, ";") != strings.Join(wB.log, ";") || fmt.Sprint(errA) != fmt.Sprint(errB) || sA != sB {
+				a.Violate("parse-with-both-passes", "parse-with-both-passes", desc(map[string]any{"fail_at": fail,
+					"log_of_Parse": wA.log, "log_of_Transform_then_StaticCheck": wB.log, "error_of_Parse": fmt.Sprint(errA), "error_by_hand": fmt.Sprint(errB),
+					"tree_of_Parse": trunc(sA, 1500), "tree_by_hand": trunc(sB, 1500)}))
+			}
+		}
 		if nNodes >= 3 {
 			a.NonTrivial(c13shape(w, root.node) + fmt.Sprint(listRoot))
 			a.Sample("tree", desc(map[string]any{"nodes": nNodes, "walk_stop": stop}))
@@ -635,7 +699,7 @@ func init() {
 			cov["rule"] = "case = a random tree built with ast.NewNonTerminalNode / NewEmptyNonTerminalNode / NewTerminalNode / EmptyNode (arity 0-4 and now and then 10-50, depth <= 6; one tree in 41 a chain 40-340 levels deep, one in 41 with a node of 300-1800 children; optionally an alternative list at the root), " +
 				"interpreters from four capability classes (plain, +StaticChecker, +NodeTransformer, both) plus the library's own interpreter.Select; checkers that return a nil schema; transformers that return the node itself, a leaf or a fresh transformable non-terminal; instrumented callbacks log (kind, node id, what they saw). Oracle = the same traversals over the generator's mirror tree: " +
 				"Walk post-order with a stop at a random visit; StaticCheck bottom-up with children's schemas, stored schemas and an injected failure; evaluation order with identical node + user context and an injected failure; " +
-				"Transform (own transformer, else children, injected failure), directly and through parsley.Parse with EnableTransformation. non-trivial = tree with >= 3 nodes; distinct = distinct tree shape"
+				"Transform (own transformer, else children, injected failure), directly and through parsley.Parse with EnableTransformation; a quarter of the trees also through Parse with transformation AND static check enabled, compared with Transform followed by StaticCheck on an identical twin. non-trivial = tree with >= 3 nodes; distinct = distinct tree shape"
 			if a.Counters["walk callbacks observed"] == 0 || a.Counters["checker invocations observed"] == 0 || a.Counters["transformer invocations observed"] == 0 {
 				return "some pass was never observed"
 			}
